@@ -189,6 +189,9 @@ func (m *Module) Definition(ident string) Definition {
 	if x, found := m.dataDefsIndex[ident]; found {
 		return x
 	}
+	if x := findInChoices(m.dataDefs, ident); x != nil {
+		return x
+	}
 	
 	return nil
 }
@@ -586,6 +589,9 @@ func (m *ChoiceCase) Definition(ident string) Definition {
 	if x, found := m.dataDefsIndex[ident]; found {
 		return x
 	}
+	if x := findInChoices(m.dataDefs, ident); x != nil {
+		return x
+	}
 	
 	return nil
 }
@@ -878,6 +884,9 @@ func (m *Container) Definition(ident string) Definition {
 	}
 	
 	if x, found := m.dataDefsIndex[ident]; found {
+		return x
+	}
+	if x := findInChoices(m.dataDefs, ident); x != nil {
 		return x
 	}
 	
@@ -1174,6 +1183,9 @@ func (m *List) Definition(ident string) Definition {
 	}
 	
 	if x, found := m.dataDefsIndex[ident]; found {
+		return x
+	}
+	if x := findInChoices(m.dataDefs, ident); x != nil {
 		return x
 	}
 	
@@ -2017,6 +2029,9 @@ func (m *Grouping) Definition(ident string) Definition {
 	if x, found := m.dataDefsIndex[ident]; found {
 		return x
 	}
+	if x := findInChoices(m.dataDefs, ident); x != nil {
+		return x
+	}
 	
 	return nil
 }
@@ -2462,6 +2477,9 @@ func (m *RpcInput) Definition(ident string) Definition {
 	if x, found := m.dataDefsIndex[ident]; found {
 		return x
 	}
+	if x := findInChoices(m.dataDefs, ident); x != nil {
+		return x
+	}
 	
 	return nil
 }
@@ -2638,6 +2656,9 @@ func (m *RpcOutput) addIfFeature(i *IfFeature) {
 // Definition can be a data defintion, action or notification
 func (m *RpcOutput) Definition(ident string) Definition {
 	if x, found := m.dataDefsIndex[ident]; found {
+		return x
+	}
+	if x := findInChoices(m.dataDefs, ident); x != nil {
 		return x
 	}
 	
@@ -2923,6 +2944,9 @@ func (m *Notification) addIfFeature(i *IfFeature) {
 // Definition can be a data defintion, action or notification
 func (m *Notification) Definition(ident string) Definition {
 	if x, found := m.dataDefsIndex[ident]; found {
+		return x
+	}
+	if x := findInChoices(m.dataDefs, ident); x != nil {
 		return x
 	}
 	
@@ -3213,6 +3237,9 @@ func (m *Augment) Definition(ident string) Definition {
 	}
 	
 	if x, found := m.dataDefsIndex[ident]; found {
+		return x
+	}
+	if x := findInChoices(m.dataDefs, ident); x != nil {
 		return x
 	}
 	
@@ -4184,6 +4211,9 @@ func (m *Extension) Definition(ident string) Definition {
 	}
 	
 	if x, found := m.dataDefsIndex[ident]; found {
+		return x
+	}
+	if x := findInChoices(m.dataDefs, ident); x != nil {
 		return x
 	}
 	
